@@ -161,6 +161,37 @@ static void run_kernels(Ctx& ctx) {
   }
 }
 
+// the same element kernels on very long vectors (nn = 2^16, 2^21: one polynomial of 16 MiB), every 8-byte alignment of the output modulo 32,
+// out of place and in place (res == a): a path chosen by the amount of data must still compute every coefficient exactly once
+static void run_kernels_large(Ctx& ctx, uint64_t nn) {
+  struct K { const char* name; void* f; int nin; char m; };
+  K ks[] = {{"znx_add_i64_ref", (void*)znx_add_i64_ref, 2, '+'}, {"znx_add_i64_avx", (void*)znx_add_i64_avx, 2, '+'}, {"znx_sub_i64_ref", (void*)znx_sub_i64_ref, 2, '-'},
+            {"znx_sub_i64_avx", (void*)znx_sub_i64_avx, 2, '-'}, {"znx_negate_i64_ref", (void*)znx_negate_i64_ref, 1, 'n'}, {"znx_negate_i64_avx", (void*)znx_negate_i64_avx, 1, 'n'},
+            {"znx_copy_i64_ref", (void*)znx_copy_i64_ref, 1, 'c'}, {"znx_zero_i64_ref", (void*)znx_zero_i64_ref, 0, 'z'}};
+  for (auto& k : ks)
+    for (size_t ro : {0, 8, 16, 24}) for (int al = 0; al < 3; ++al) {
+      if (al == 1 && k.nin < 1) continue;   // res == a
+      if (al == 2 && k.nin < 2) continue;   // res == b
+      std::string id = sfmt("kernel|%s|nn=%llu|res at %zu mod 32|%s", k.name, (unsigned long long)nn, ro, al == 0 ? "out of place" : al == 1 ? "res == a" : "res == b");
+      if (!ctx.want(id)) continue;
+      ctx.begin_case(id);
+      GBuf r(nn * 8, ro), a(nn * 8, (ro + 8) % 32), b(nn * 8, 16);
+      int64_t* A = al == 1 ? r.as<int64_t>() : a.as<int64_t>();
+      int64_t* B = al == 2 ? r.as<int64_t>() : b.as<int64_t>();
+      prefill(r.p, nn * 8, 2);
+      for (uint64_t j = 0; j < nn; ++j) { A[j] = probe62(j + 2) / 2; }
+      if (k.nin >= 2) for (uint64_t j = 0; j < nn; ++j) B[j] = probe62(j + 1000003) / 2;
+      if (k.nin == 2) ((bin_f)k.f)(nn, r.as<int64_t>(), A, B); else if (k.nin == 1) ((un_f)k.f)(nn, r.as<int64_t>(), A); else ((void (*)(uint64_t, int64_t*))k.f)(nn, r.as<int64_t>());
+      for (uint64_t j = 0; j < nn; ++j) {
+        int64_t aj = probe62(j + 2) / 2, bj = probe62(j + 1000003) / 2;
+        int64_t e = k.m == '+' ? aj + bj : k.m == '-' ? aj - bj : k.m == 'n' ? -aj : k.m == 'c' ? aj : 0;
+        if (r.as<int64_t>()[j] != e) { ctx.violation(id, sfmt("element %llu is %lld, expected %lld", (unsigned long long)j, (long long)r.as<int64_t>()[j], (long long)e)); break; }
+      }
+      if (!r.guards_ok() || !a.guards_ok() || !b.guards_ok()) ctx.violation(id, "write outside the nn elements");
+      ctx.end_case(true);
+    }
+}
+
 int main(int argc, char** argv) {
   Args args = parse_args("C08", argc, argv, 240, 1500);
   Ctx ctx(args);
@@ -186,6 +217,8 @@ int main(int argc, char** argv) {
   std::stable_sort(items.begin(), items.end(), [](const Item& a, const Item& b) { return a.N > b.N; });
   ctx.parallel(items.size(), [&](uint64_t i) { run_item(ctx, items[i]); }, "vec ops");
   ctx.parallel(1, [&](uint64_t) { run_kernels(ctx); }, "kernels");
+  { std::vector<uint64_t> big = {UINT64_C(1) << 21, UINT64_C(1) << 16, 4096}; if (args.thorough()) big.insert(big.begin(), UINT64_C(1) << 23);
+    ctx.parallel(big.size(), [&](uint64_t i) { run_kernels_large(ctx, big[i]); }, "kernels on very long vectors"); }
   struct BItem { int op, mt, shape; };
   std::vector<BItem> bitems;
   for (int shape = 0; shape < (args.thorough() ? 3 : 2); ++shape)
